@@ -301,6 +301,10 @@ func (i ItemCollection) Recipients() ItemCollection {
 	all := make(ItemCollection, 0)
 	for _, it := range i {
 		_ = OnObject(it, func(ob *Object) error {
+			if ob == nil {
+				// a typed nil member is handed to the callback as a nil pointer
+				return nil
+			}
 			aud := ob.Audience
 			_ = all.Append(ItemCollectionDeduplication(&ob.To, &ob.CC, &ob.Bto, &ob.BCC, &aud)...)
 			return nil
